@@ -56,10 +56,11 @@ C33_ReactiveWithinArea ==
   (O.built /\ AreaOnly(K)) => \A t \in 1..Len(Steps) : \A e \in E :
      (Steps[t].flex_ok /\ (K.d = 1 \/ (Steps[t].qmin[e] <= Steps[t].pre_qu[e] /\ Steps[t].pre_qu[e] <= Steps[t].qmax[e])))
         => (Steps[t].qmin[e] - 2 <= Steps[t].post_qu[e] /\ Steps[t].post_qu[e] <= Steps[t].qmax[e] + 2)
-\* the state run_control settles in is within the capability (allowance: the convergence criterion, see header)
+\* the state run_control settles in after at least one step is within the capability (allowance: the convergence
+\* criterion, see header; without a step the controller wrote nothing and "after each step" is vacuous)
 SettleU(q) == K.d * (2 + Abs(q) \div 100000) + 2
 C33_SettledWithinCapability ==
-  (Ran /\ O.converged) => \A e \in E :
+  (Ran /\ O.converged /\ Len(Steps) >= 1) => \A e \in E :
      /\ SatActive(K) => In4(O.fin.p4[e], O.fin.q4[e], 3 * (Abs(O.fin.p4[e]) + Abs(O.fin.q4[e])) + 4)
      /\ (AreaOnly(K) /\ O.fin.flex_ok) => (O.fin.qmin[e] - SettleU(O.fin.qu[e]) <= O.fin.qu[e] /\ O.fin.qu[e] <= O.fin.qmax[e] + SettleU(O.fin.qu[e]))
 
@@ -75,7 +76,7 @@ ObsP(j, e) == IF j <= Len(Steps) THEN Steps[j].post_p[e] ELSE O.fin.p4[e]
 ObsQ(j, e) == IF j <= Len(Steps) THEN Steps[j].post_q[e] ELSE O.fin.q4[e]
 Model_Trajectory ==
   (Nominal /\ Ran /\ O.converged) => \A j \in 1..3 : LET m == Traj(c, El0(c), j) IN
-     \A e \in E : Abs(ObsP(j, e) - 2 * PSeries(m[e].p)) <= 12 /\ Abs(ObsQ(j, e) - 2 * m[e].q) <= 12
+     \A e \in E : Abs(ObsP(j, e) - 2 * m[e].p) <= 12 /\ Abs(ObsQ(j, e) - 2 * m[e].q) <= 12
 \* the area model against the object's q_flexibility at the first step (micro-Mvar = 200 * bp; 6 bp)
 Model_Flex ==
   (Nominal /\ Ran /\ c.area # "none" /\ Len(Steps) >= 1 /\ Steps[1].flex_ok) => LET m == Traj(c, El0(c), 1) IN
